@@ -260,7 +260,12 @@ def build(t, cache=None):
         ns = {}
         for fn, ft in t["f"]:
             ft_ = build(ft, cache)
-            ns[fn] = xo.Field(ft_, readonly=True) if fn in t.get("ro", ()) else ft_
+            if fn in t.get("ro", ()):
+                ns[fn] = xo.Field(ft_, readonly=True)
+            elif fn in t.get("dflt", {}):
+                ns[fn] = xo.Field(ft_, default=t["dflt"][fn])  # a declared default (also on reference fields)
+            else:
+                ns[fn] = ft_
         cls = type(n, (xo.Struct,), ns)
     elif k == "ar":
         it = build(t["it"], cache)
